@@ -21,3 +21,53 @@ package cipher
 //@   loop 1 decreases len(msg)
 //@   assert before call updateBlock#2: forall i :: 0 <= i && i < 16 ==> partialBlock[i] == ite(i < len(msg), msg[i], h.tweak[i - len(msg)])
 //@   assert before call updateBlock#3: forall i :: 0 <= i && i < 16 ==> partialBlock[i] == ite(i < len(msg), h.tweak[16 - len(msg) + i], 0)
+
+// ---- generic ECB over an abstract block cipher (block size 8 or 16): per block q,
+// dst block q == E_K(src block q) for every length, separate or exactly overlapping buffers
+//@ func validate property C03
+//@   requires size > 0
+//@   panics iff len(src) % size != 0 || len(dst) < len(src) || (sameobj(dst, src) && offof(dst) != offof(src) && offof(dst) < offof(src) + len(src) && offof(src) < offof(dst) + len(src))
+//@   ensures len(src) % size == 0 && len(dst) >= len(src)
+//@   ensures !(sameobj(dst, src) && offof(dst) != offof(src) && offof(dst) < offof(src) + len(src) && offof(src) < offof(dst) + len(src))
+//@   modifies nothing
+
+//@ pred ecbblock(dst, q, K, SA, SO, bs) := forall i :: 0 <= i && i < bs ==> dst[bs * q + i] == ENC(K, BLK(SA, SO + bs * q, bs))[i]
+//@ pred ecbdblock(dst, q, K, SA, SO, bs) := forall i :: 0 <= i && i < bs ==> dst[bs * q + i] == DEC(K, BLK(SA, SO + bs * q, bs))[i]
+
+//@ func (*ecbEncrypter).CryptBlocks property C03
+//@   config bs in 8,16
+//@   requires x.b != nil && BS(id(x.b)) == bs && x.blockSize == bs
+//@   maypanic
+//@   let K := id(x.b)
+//@   let SA := arr(src)
+//@   let SO := offof(src)
+//@   let N := len(src) / bs
+//@   ensures forall q :: 0 <= q && q < N ==> ecbblock(dst, q, K, SA, SO, bs)
+//@   modifies dst[0..len(src)]
+//@   loop 1 let D0 := dst
+//@   loop 1 let S0 := src
+//@   loop 1 invariant sameobj(src, S0) && offof(src) + len(src) == offof(S0) + len(S0) && offof(S0) <= offof(src) && (offof(src) - offof(S0)) % bs == 0 && len(src) % bs == 0
+//@   loop 1 invariant sameobj(dst, D0) && offof(dst) - offof(D0) == offof(src) - offof(S0) && len(dst) == len(D0) - (offof(dst) - offof(D0)) && len(D0) >= len(S0)
+//@   loop 1 invariant forall q :: 0 <= q && q < (offof(src) - offof(S0)) / bs ==> ecbblock(D0, q, K, SA, SO, bs)
+//@   loop 1 invariant forall j :: 0 <= j && j < len(src) ==> src[j] == SA[offof(src) + j]
+//@   loop 1 invariant onlychanged(D0[:len(S0)])
+//@   loop 1 decreases len(src)
+
+//@ func (*ecbDecrypter).CryptBlocks property C03
+//@   config bs in 8,16
+//@   requires x.b != nil && BS(id(x.b)) == bs && x.blockSize == bs
+//@   maypanic
+//@   let K := id(x.b)
+//@   let SA := arr(src)
+//@   let SO := offof(src)
+//@   let N := len(src) / bs
+//@   ensures forall q :: 0 <= q && q < N ==> ecbdblock(dst, q, K, SA, SO, bs)
+//@   modifies dst[0..len(src)]
+//@   loop 1 let D0 := dst
+//@   loop 1 let S0 := src
+//@   loop 1 invariant sameobj(src, S0) && offof(src) + len(src) == offof(S0) + len(S0) && offof(S0) <= offof(src) && (offof(src) - offof(S0)) % bs == 0 && len(src) % bs == 0
+//@   loop 1 invariant sameobj(dst, D0) && offof(dst) - offof(D0) == offof(src) - offof(S0) && len(dst) == len(D0) - (offof(dst) - offof(D0)) && len(D0) >= len(S0)
+//@   loop 1 invariant forall q :: 0 <= q && q < (offof(src) - offof(S0)) / bs ==> ecbdblock(D0, q, K, SA, SO, bs)
+//@   loop 1 invariant forall j :: 0 <= j && j < len(src) ==> src[j] == SA[offof(src) + j]
+//@   loop 1 invariant onlychanged(D0[:len(S0)])
+//@   loop 1 decreases len(src)
